@@ -43,6 +43,7 @@ type loopInfo struct {
 
 type FuncExec struct {
 	curSiteFrame *CallSiteSpec
+	clauseFaults []string // contract clauses that could not be evaluated against the current code
 	havocNames map[string]bool // contract-less callees abstracted by the import-closure rule
 	envWrites map[string][]string // heap key -> refs havocked at Lock (interference, not this function's writes)
 	V       *Verifier
@@ -163,6 +164,32 @@ func (fx *FuncExec) oblige(kind string, st *State, goal string, desc string, pos
 		ob.Model[k] = v
 	}
 	fx.obls = append(fx.obls, ob)
+}
+
+// obligeClause evaluates one contract clause and makes it an obligation. A clause that cannot be
+// evaluated against the current code (it names a local, a label or a field that is gone) is a
+// clause-level tool fault: it is recorded, the other clauses of the function are still checked.
+func (fx *FuncExec) obligeClause(kind string, st *State, env *SpecEnv, c Clause, desc string, pos token.Pos) {
+	var goal string
+	ok := func() (ok bool) {
+		defer func() {
+			if r := recover(); r != nil {
+				if tl, isTL := r.(toolLimitErr); isTL {
+					if fx.discard == 0 {
+						fx.clauseFaults = append(fx.clauseFaults, tl.msg)
+					}
+					ok = false
+					return
+				}
+				panic(r)
+			}
+		}()
+		goal = fx.evalBool(env, c)
+		return true
+	}()
+	if ok {
+		fx.oblige(kind, st, goal, desc, pos)
+	}
 }
 
 func (fx *FuncExec) assume(st *State, fact string) {
@@ -1153,7 +1180,7 @@ func (fx *FuncExec) afterMapUpdate(st *State, x *ssa.MapUpdate, args []Val) {
 			env.callArgs = args
 			fx.withLoop(env, st)
 			for _, a := range ss.Asserts {
-				fx.oblige("assert@store", st, fx.evalBool(env, a), fmt.Sprintf("after map assignment #%d: %s", ss.Ordinal, a.Text), x.Pos())
+				fx.obligeClause("assert@store", st, env, a, fmt.Sprintf("after map assignment #%d: %s", ss.Ordinal, a.Text), x.Pos())
 			}
 			fx.usedCallSites[ss] = true
 		}
@@ -1340,6 +1367,10 @@ func (fx *FuncExec) execConvert(st *State, x *ssa.Convert) {
 		} else {
 			fx.em.Assert(fmt.Sprintf("(>= (gs.len %s) (s.len %s))", s, v.S))
 			fx.em.Assert(imp(eq("(s.len "+v.S+")", "0"), eq("(gs.len "+s+")", "0")))
+			// a single ASCII rune encodes as the one byte with the same value
+			e0 := fmt.Sprintf("(select (select %s (s.arr %s)) (s.off %s))", h, v.S, v.S)
+			fx.em.Assert(imp(and(eq("(s.len "+v.S+")", "1"), fmt.Sprintf("(<= 0 %s)", e0), fmt.Sprintf("(< %s 128)", e0)),
+				and(eq("(gs.len "+s+")", "1"), eq("(gs.at "+s+" 0)", e0))))
 			fx.note("string([]rune): byte length is at least the rune count; contents are not related")
 		}
 		fx.def(x, Val{T: x.Type(), Sort: SStr, S: s})
@@ -1622,7 +1653,7 @@ func (fx *FuncExec) finish() {
 	env.results = results
 	env.atReturn = true
 	for _, e := range fx.fc.Ensures {
-		fx.oblige("post", exit, fx.evalBool(env, e), "postcondition: "+e.Text, pos)
+		fx.obligeClause("post", exit, env, e, "postcondition: "+e.Text, pos)
 	}
 	for _, e := range fx.fc.Asserts {
 		fx.oblige("assert", exit, fx.evalBool(env, e), "lemma assertion: "+e.Text, pos)
@@ -1884,7 +1915,7 @@ func (fx *FuncExec) afterStore(st *State, x *ssa.Store) {
 			env := fx.specEnv(st, fx.entry)
 			fx.withLoop(env, st)
 			for _, a := range ss.Asserts {
-				fx.oblige("assert@store", st, fx.evalBool(env, a), fmt.Sprintf("after store %s#%d: %s", name, ss.Ordinal, a.Text), x.Pos())
+				fx.obligeClause("assert@store", st, env, a, fmt.Sprintf("after store %s#%d: %s", name, ss.Ordinal, a.Text), x.Pos())
 			}
 			fx.usedCallSites[ss] = true
 		}
